@@ -32,6 +32,11 @@ prop('C04', prefix=['c04'], bounds=UM_BOUNDS + '; arguments unconstrained (any i
      outside=UM_OUT + '; operations taking text that needs parsing')
 prop('C28', prefix=['c01', 'c28'], bounds=UM_BOUNDS + '; selection setters with unconstrained arguments',
      outside='keyboard navigation / page up-down (pixel arithmetic over float sums), duplicate_sheet (parser), operations on sheets with cells')
+prop('C08', prefix=['c08'],
+     bounds='Model::set_cells_with_result on a formula cell of each kind (plain, CSE anchor over <=2x2 with its spill cells, dynamic anchor) with a result that is any '
+            'f64 (NaN and infinities included) or an array of 1x1..2x2 such numbers',
+     outside='whether a built-in function can produce a non-finite value in the first place (the ~495 functions), numbers typed by the user or read from files, '
+             'strings/booleans/errors in arrays; the check decides: if a non-finite value reaches the store, is it stored?')
 prop('C11', prefix=['c11'],
      bounds='every ASCII string of length <=3 (<=4 thorough) through the real formula lexer in A1 and R1C1 mode (en locale/language) until EOF, and through the '
             'number-format lexer + parser and the date-format detector; length <=4 through column_to_number, parse_reference_a1/r1c1, is_valid_identifier, '
@@ -84,6 +89,10 @@ prop('C30', prefix=['c30'],
             'Model::set_cell_style / get_style_for_cell',
      outside='font names/colours, borders (neighbour logic), named styles and style includes, row/column style plumbing above the pool (C29 checks the '
              'row/column records), xlsx import/export of the pools')
+prop('C31', prefix=['c31'],
+     bounds='Model::set_cells_with_result on a dynamic anchor with an array result of 1x1..2x2 arbitrary finite numbers; each of the three neighbour cells is absent, '
+            'an empty styled cell, user content, a stale spill of this anchor or a spill of another anchor (symbolic styles and anchor); anchor in the last row / column',
+     outside='staleness across evaluation passes (evaluate_cell clearing old spills), undo, structural edits and paste - histories through the evaluator; larger results')
 prop('C33', prefix=['c33'],
      bounds='CF coordinates: row/column/position/count/offset any i32 inside the grid, sheet ids any u32; links: 2 links at any distinct in-grid '
             'cells, insert/delete any position and count, block move <=2 by |offset| <=2',
@@ -185,7 +194,7 @@ def main():
     if replay_file:
         return do_replay(pid, b, replay_file)
     cfg = PROPS[pid]
-    hdir = os.path.join(VERIF, 'harness')
+    hdir = build.HDIR
     names = []
     for m, fn, _ in build.harness_fns(hdir):
         mm = re.match(r'(ht?)_(c\d+)_', fn)
@@ -259,8 +268,8 @@ def conclude(pid, tier, seed, b, names, res, t0, cfg):
             incon.append('%s: vacuous - no feasible path reaches the end of the harness' % name)
     # every check id written in the harness sources of this property must have been reached
     hsrc = ''
-    for m in build.harness_modules(os.path.join(VERIF, 'harness')):
-        hsrc += open(os.path.join(VERIF, 'harness', m + '.rs')).read()
+    for m in build.harness_modules(build.HDIR):
+        hsrc += open(os.path.join(build.HDIR, m + '.rs')).read()
     # --- translator validation: one witness input per explored path, real code vs encoding
     validated = 0
     mismatch = []
